@@ -36,7 +36,7 @@ X1 = binop('=', own('x'), ('lit', 'int', '1'))
 
 
 def _pred(ch, visible):
-    opts = [None, None, X0, X1]
+    opts = [None, None, X0, X1, X0, X1, mast.FALSE, mast.TRUE]
     for a in visible:
         opts.append(binop('=', own('x'), ('field', ('var', a), 'x')))
         opts.append(binop('=', own('x'), ('field', ('var', a), 'x')))
